@@ -57,6 +57,10 @@ class _Auxiliar(BaseModel):
 
     @classmethod
     def cast(cls, value):
+        if not isinstance(value, (str, list, dict)):
+            # Plain scalars and values that are already typed (dates, networks, models...) are what they denote
+            return value
+
         with suppress(ValidationError):
             value = _Auxiliar(aux=value).aux
 
